@@ -72,7 +72,7 @@ class Obs3(e2.Obs):
     gt: list = field(default_factory=list)     # ground-truth violations [(prop, key, msg)]
 
 
-def run_once_e3(cfg: E3Config, chooser: Chooser, *, world_hook=None) -> Obs3:
+def run_once_e3(cfg: E3Config, chooser: Chooser, *, world_hook=None, around_run=None, terminate_choice=False) -> Obs3:
     base = cfg.base
     spec = base.spec
     ctx = dict(base.context) if base.context is not None else None
@@ -85,7 +85,7 @@ def run_once_e3(cfg: E3Config, chooser: Chooser, *, world_hook=None) -> Obs3:
     eff_workers = cfg.max_workers if cfg.max_workers is not None else cfg.cpu_count
     world = VWorld(chooser, cpu_count=cfg.cpu_count, log_mode=cfg.log_mode,
                    die_labels=[spec.labels[i] for i in base.died], die_exit0=cfg.die_exit0,
-                   liveness_choice=cfg.liveness_choice)
+                   liveness_choice=cfg.liveness_choice, terminate_choice=terminate_choice)
     want_method = cfg.backend
     backend_events: list = []
 
@@ -158,8 +158,10 @@ def run_once_e3(cfg: E3Config, chooser: Chooser, *, world_hook=None) -> Obs3:
             req = [built.fresh(i) if fr else built.canon[i] for i, fr in base.requested]
             lab = labtech.Lab(storage=storage, runner_backend=backend, continue_on_failure=base.cof,
                               notebook=False, context=ctx, max_workers=cfg.max_workers)
+            import contextlib
             try:
-                res = lab.run_tasks(req, bust_cache=base.bust_cache, disable_progress=True, disable_top=not cfg.monitor)
+                with (around_run(world) if around_run is not None else contextlib.nullcontext()):
+                    res = lab.run_tasks(req, bust_cache=base.bust_cache, disable_progress=True, disable_top=not cfg.monitor)
                 outcome = ('return', res)
             except (Spin, Livelock) as e:
                 outcome = ('spin', e)
